@@ -22,4 +22,10 @@ CLAIMED = {
     },
 }
 
+CLAIMED["C17"] = {
+    "text": "Theorems (Lean, every store state, clock reading and call): the four read operations behave on a store with expired rows exactly as on the store without them (expired_is_absent_partial), reads never return or count an expired row, visibility before expiry to within one second while the timestamp is representable, never-expiring records, replace resets expiry. The full-strength statement 'expired rows are absent for EVERY operation' is refuted on the model of the current code with four machine-checked witnesses (insert->Duplicate, replace resurrects, remove succeeds, remove_all counts) and the year-9999 limit is stated outright; each witness is replayed on the real code by the correspondence run and listed in known-findings.json (open). Time is moved deterministically by rewriting stored timestamps.",
+    "note": SQL + "Known findings D8 (4 signatures) and D13 (4 signatures) are reported as KNOWN-FINDING; any other expiry failure is a VIOLATION. Real waiting across second boundaries is not part of the quick tier.",
+    "technique": "Lean 4 proof + machine-checked refutation witnesses + differential correspondence run with out-of-band time travel",
+}
+
 NOT_YET = {}
